@@ -20,6 +20,14 @@ BUILT = {
             "running circuit; each event is compared with a reference FSM interpreter: result, "
             "state, output, exact action/event order and the fsm_event_data every action reads",
             "refinement against an executable reference FSM interpreter"),
+    'C08': ('fault_enumeration',
+            "fault site (block x phase) x termination cause x instant are walked systematically "
+            "for the first 1500 run indices and sampled beyond, over generated circuits of "
+            "lifecycle probes and library blocks, with both entry points (run_forever task, "
+            "edzed.run with supporting coroutines, SIGTERM handler called directly); pass-through "
+            "wrappers record start/stop/stop_async/init_async calls; after the end the loop is "
+            "inspected for unfinished tasks and live timers and run one more virtual hour",
+            "fault-site x cause x instant enumeration with post-mortem task/timer leak inspection"),
     'C07': ('exploration',
             "seeded search over TimeDate/TimeSpan configurations (numeric interval sets incl. "
             "microsecond and end-of-day endpoints), start and reconfig instants on a "
